@@ -281,6 +281,7 @@ where
                 prod_precs.push(Some(None));
                 prods_rules.push(Some(ridx));
                 actions.push(None);
+                action_spans.push(None);
                 continue;
             } else if implicit_start_rule.as_ref() == Some(astrulename) {
                 // Add the intermediate start rule (handling implicit tokens at the beginning of
@@ -293,6 +294,8 @@ where
                 ]));
                 prod_precs.push(Some(None));
                 prods_rules.push(Some(ridx));
+                actions.push(None);
+                action_spans.push(None);
                 continue;
             } else if implicit_rule.as_ref() == Some(astrulename) {
                 // Add the implicit rule: ~: "IMPLICIT_TOKEN_1" ~ | ... | "IMPLICIT_TOKEN_N" ~ | ;
@@ -303,12 +306,16 @@ where
                     prods.push(Some(vec![Symbol::Token(token_map[t]), Symbol::Rule(ridx)]));
                     prod_precs.push(Some(None));
                     prods_rules.push(Some(ridx));
+                    actions.push(None);
+                    action_spans.push(None);
                 }
                 // Add an empty production
                 implicit_prods.push(PIdx(prods.len().as_()));
                 prods.push(Some(vec![]));
                 prod_precs.push(Some(None));
                 prods_rules.push(Some(ridx));
+                actions.push(None);
+                action_spans.push(None);
                 continue;
             } else {
                 actiontypes[usize::from(ridx)] = ast.rules[astrulename].actiont.clone();
